@@ -19,7 +19,7 @@ import (
 type c15Case struct {
 	Op        string `json:"op"`        // see c15Ops
 	Transport string `json:"transport"` // inproc | tcp | tcp-tls
-	End       string `json:"end"`       // deadline | cancel
+	End       string `json:"end"`       // deadline | cancel | cancel+deadline (cancelled early although its deadline is a minute away)
 	AtMs      int    `json:"atMs"`      // when the context ends, relative to the start of the call (0 = already ended)
 }
 
@@ -57,6 +57,7 @@ func c15BoundMs(c *c15Case) int64 {
 	if c.End == "deadline" || c.Transport == "inproc" {
 		return 1
 	}
+	// "cancel+deadline" is a cancellation: the far deadline plays no role in the bound
 	switch c.Op {
 	case "channel.process-command", "listener.accept":
 		return 1 // waiting on Go channels, not on the connection
@@ -413,9 +414,15 @@ func runC15(c *c15Case) *c15Obs {
 		var ctx context.Context
 		var cancel context.CancelFunc
 		start := time.Now()
-		if c.End == "deadline" {
+		switch c.End {
+		case "deadline":
 			ctx, cancel = context.WithDeadline(context.Background(), start.Add(at))
-		} else {
+		case "cancel+deadline":
+			ctx, cancel = context.WithDeadline(context.Background(), start.Add(time.Minute))
+			if c.AtMs == 0 {
+				cancel()
+			}
+		default:
 			ctx, cancel = context.WithCancel(context.Background())
 			if c.AtMs == 0 {
 				cancel()
@@ -451,7 +458,7 @@ func runC15(c *c15Case) *c15Obs {
 		// the call is pending and every goroutine is durably blocked
 		obs.Blocked = true
 		tEnd := start.Add(at)
-		if c.End == "cancel" && c.AtMs != 0 {
+		if c.End != "deadline" && c.AtMs != 0 {
 			time.Sleep(time.Until(tEnd))
 			cancel()
 		}
@@ -509,7 +516,7 @@ func TestC15Enum(t *testing.T) {
 			if !c15Applies(op, tr) {
 				continue
 			}
-			for _, end := range []string{"deadline", "cancel"} {
+			for _, end := range []string{"deadline", "cancel", "cancel+deadline"} {
 				for _, at := range []int{0, 50, 1300, 7000} {
 					idx++
 					if idx%nsh != sh {
@@ -533,7 +540,7 @@ func TestC15(t *testing.T) {
 	rec := NewRecorder("C15", "TestC15")
 	rapid.Check(t, func(rt *rapid.T) {
 		c := &c15Case{Op: rapid.SampledFrom(c15Ops).Draw(rt, "op"), Transport: rapid.SampledFrom([]string{"inproc", "tcp", "tcp-tls"}).Draw(rt, "transport"),
-			End: rapid.SampledFrom([]string{"deadline", "cancel"}).Draw(rt, "end"), AtMs: rapid.IntRange(0, 12000).Draw(rt, "atMs")}
+			End: rapid.SampledFrom([]string{"deadline", "cancel", "cancel+deadline"}).Draw(rt, "end"), AtMs: rapid.IntRange(0, 12000).Draw(rt, "atMs")}
 		if !c15Applies(c.Op, c.Transport) {
 			c.Transport = "tcp-tls"
 			if c.Op == "listener.accept" {
